@@ -153,6 +153,7 @@ def run(ctx):
     quick = ctx.tier == 'quick'
     req, exp, meta = [], [], []
     oracle_bad = []
+    dtype_bad = []
 
     def add(r, thunk, m, dense=None, x=None):
         """thunk calls the implementation; dense/x: the explicit matrix and argument for the model-free oracle"""
@@ -169,7 +170,34 @@ def run(ctx):
             want = dense @ x
             if y is None or y.shape != want.shape or not np.array_equal(y, want):
                 oracle_bad.append((m, r, e, fmt_tensor(want)))
+            elif rng.integers(0, 3) == 0:
+                dtype_probe(r, thunk, m, dense, x)
         return e
+
+    DTYPES = [np.int64, np.int32, np.bool_, np.float32]
+
+    def dtype_probe(r, thunk, m, dense, x):
+        """the same call with the argument cast to an integer / bool / float32 dtype; oracle: the dense matrix in float64"""
+        import inspect
+        names = [nm for nm in ('x', 'x2', 'x1') if nm in inspect.signature(thunk).parameters]
+        if not names:
+            return
+        dt = DTYPES[int(rng.integers(0, len(DTYPES)))]
+        xc = x.astype(dt)
+        xf = xc.astype(np.float64)
+        want = dense @ xf
+        ctx.count('dtype probe=' + np.dtype(dt).name); ctx.case((r, np.dtype(dt).name), nontrivial=m.get('nontrivial', True))
+        # integer, bool and these float32 values are exactly representable; float32 arithmetic may round: derive the bound from its eps
+        tol = 0.0 if dt is not np.float32 else 8.0 * (dense.shape[1] + 2) * float(np.finfo(np.float32).eps) * (np.abs(dense) @ np.abs(xf))
+        try:
+            y = np.asarray(thunk(**{names[0]: xc}))
+            ok = y.shape == want.shape and bool(np.all(np.abs(y.astype(np.float64) - want) <= tol))
+            got = fmt_tensor(y.astype(np.float64)) if y.dtype != object else 'object array'
+        except Exception as ex:
+            ok = False
+            got = errtok(ex) + ': ' + str(ex)[:120]
+        if not ok:
+            dtype_bad.append((m, r, np.dtype(dt).name, got, fmt_tensor(want), xc.tolist()))
 
     # ---------------------------------------------------------------- apply_tprod
     ntp = 1400 if quick else 12000
@@ -210,6 +238,21 @@ def run(ctx):
                 rows = tuple(f.shape[0] for f in full)
                 if Y.shape != rows + trail or not np.array_equal(Y.reshape(-1, T), dense @ x):
                     oracle_bad.append(({'op': 'tprod', 'kinds': ks}, r, e, fmt_tensor((dense @ x).reshape(rows + trail))))
+                elif rng.integers(0, 3) == 0:
+                    dt = DTYPES[int(rng.integers(0, len(DTYPES)))]
+                    Ac = A.astype(dt); Af = Ac.astype(np.float64)
+                    ctx.count('dtype probe=' + np.dtype(dt).name)
+                    wantc = (dense @ Af.reshape(int(np.prod(lead)), T)).reshape(rows + trail)
+                    tolc = 0.0 if dt is not np.float32 else 8.0 * (dense.shape[1] + 2) * float(np.finfo(np.float32).eps) * (
+                        np.abs(dense) @ np.abs(Af.reshape(int(np.prod(lead)), T))).reshape(rows + trail)
+                    try:
+                        Yc = np.asarray(tensor.apply_tprod(ops, Ac))
+                        okc = Yc.shape == wantc.shape and bool(np.all(np.abs(Yc.astype(np.float64) - wantc) <= tolc))
+                        gotc = fmt_tensor(Yc.astype(np.float64))
+                    except Exception as ex:
+                        okc = False; gotc = errtok(ex) + ': ' + str(ex)[:120]
+                    if not okc:
+                        dtype_bad.append(({'op': 'tprod', 'kinds': ks}, r, np.dtype(dt).name, gotc, fmt_tensor(wantc), Ac.tolist()))
             except Exception as ex:
                 oracle_bad.append(({'op': 'tprod', 'kinds': ks}, r, errtok(ex), 'no exception expected'))
         else:
@@ -439,8 +482,18 @@ def run(ctx):
     ctx.obligation('dense-definition oracle on every generated case (known findings excluded)', nunk == 0,
                    '%d failures, %d of them listed known findings' % (len(oracle_bad), len(oracle_bad) - nunk))
     ctx.extra['requests'] = len(req)
+    seen_dt = set()
+    for (m, r, dt, got, want, xc) in dtype_bad:
+        if m['op'] in seen_dt:
+            continue
+        seen_dt.add(m['op'])
+        ctx.violation('dtype:' + m['op'], '%s applied to a %s argument differs from the dense definition (float64)' % (m['op'], dt),
+                      {'request_float64': r[:2500], 'argument_dtype': dt, 'argument': xc, 'implementation': got[:1500], 'dense_definition': want[:1500], 'meta': m}, True)
+    ctx.obligation('argument dtypes int64/int32/bool/float32: %d probes equal the float64 dense definition' % sum(
+        v for k, v in ctx.counters.items() if k.startswith('dtype probe=')), not dtype_bad, '%d failures' % len(dtype_bad))
 
     adjoints(ctx, operators, rng)
+    history_stream(ctx, operators, solvers, rng)
     solver_streams(ctx, operators, solvers, rng)
     ctx.assumptions += ['operands are float64 arrays holding small integers (dtype handling, e.g. the float64 result of BaseBlockOperator '
                         'for integer blocks and complex blocks, is outside the model; the property quantifies over real dtypes)',
@@ -485,6 +538,147 @@ def adjoints(ctx, operators, rng):
             ctx.violation('adjoint:%s' % cls, '%s(...).H.dot(x) with %s operands %s (expected: the transposed dense matrix times x)' % (cls, skind, what),
                           {'class': cls, 'operand_kind': skind, 'observed': what, 'expected': want.tolist()}, True)
     ctx.extra['adjoint_cases'] = len(cases); ctx.extra['adjoint_ok'] = nok
+
+
+# ----------------------------------------------------------------------------- call histories / aliasing
+def history_stream(ctx, operators, solvers, rng):
+    """per operator OBJECT: y1 = A x1 (kept), y2 = A x2; y1 must be unchanged, both equal the dense definition; z = A (A x) for
+    square operators; results must not share memory with each other (nor with the input, except IdentityOperator, which returns
+    its argument by design)."""
+    quick = ctx.tier == 'quick'
+    nbad = 0
+
+    def build():
+        which = str(rng.choice(['kron', 'kron', 'bdiag', 'block', 'base', 'diag', 'ident', 'null', 'subspace', 'solver', 'ksolver', 'fastdiag']))
+        sq = bool(rng.integers(0, 2))
+        if which == 'kron':
+            n = int(rng.integers(1, 4))
+            ks, mats = rand_factors(rng, n, 3 if n < 3 else 2, square=sq)
+            return which, operators.KroneckerOperator(*[mk(k, a) for k, a in zip(ks, mats)]), kron_all(mats), {'kinds': ks, 'mats': [a.tolist() for a in mats]}, 0.0
+        if which in ('bdiag', 'block', 'base'):
+            n = int(rng.integers(1, 4))
+            ks, mats = rand_factors(rng, n, 3, square=sq)
+            D = np.zeros((sum(a.shape[0] for a in mats), sum(a.shape[1] for a in mats)))
+            i = j = 0
+            ro, ri = [], []
+            for a in mats:
+                D[i:i + a.shape[0], j:j + a.shape[1]] = a
+                ro.append((i, i + a.shape[0])); ri.append((j, j + a.shape[1]))
+                i += a.shape[0]; j += a.shape[1]
+            ops = [mk(k, a) for k, a in zip(ks, mats)]
+            if which == 'bdiag':
+                A = operators.BlockDiagonalOperator(*ops)
+            elif which == 'block':
+                rows = [[ops[c] if c == r else (None if (r > 0 and c > 0 and rng.integers(0, 2)) else operators.NullOperator((mats[r].shape[0], mats[c].shape[1])))
+                         for c in range(n)] for r in range(n)]
+                A = operators.BlockOperator(rows)
+            else:
+                A = operators.BaseBlockOperator(D.shape, tuple(ops), [range(*t) for t in ro], [range(*t) for t in ri])
+            return which, A, D, {'kinds': ks, 'mats': [a.tolist() for a in mats]}, 0.0
+        if which == 'diag':
+            d = rint(rng, (int(rng.integers(1, 6)),))
+            return which, operators.DiagonalOperator(d), np.diag(d), {'diag': d.tolist()}, 0.0
+        if which == 'ident':
+            n = int(rng.integers(1, 6))
+            return which, operators.IdentityOperator(n), np.eye(n), {'n': n}, 0.0
+        if which == 'null':
+            m, n = int(rng.integers(1, 5)), int(rng.integers(1, 5))
+            if sq:
+                m = n
+            return which, operators.NullOperator((m, n)), np.zeros((m, n)), {'shape': [m, n]}, 0.0
+        if which == 'subspace':
+            n = int(rng.integers(1, 6)); k = int(rng.integers(1, 4))
+            Ps = [rint(rng, (n, int(rng.integers(1, 4))), -2, 3) for _ in range(k)]
+            Bs = [rint(rng, (P.shape[1], P.shape[1])) for P in Ps]
+            D = sum(P @ B @ P.T for P, B in zip(Ps, Bs))
+            return which, operators.SubspaceOperator([mk(str(rng.choice(['d', 'r'])), P) for P in Ps], [mk(str(rng.choice(KINDS)), B) for B in Bs]), D, \
+                {'Ps': [P.tolist() for P in Ps], 'Bs': [B.tolist() for B in Bs]}, 0.0
+        # solvers: tolerance from the conditioning
+        n = 1 if which == 'solver' else int(rng.integers(2, 4))
+        Bs = []
+        cond = 1.0
+        for _k in range(n):
+            d = int(rng.integers(1, 4))
+            while True:
+                B = rint(rng, (d, d)) + 4 * np.eye(d) if rng.integers(0, 2) else spd_int(rng, d)
+                nn = exact_inv_norms(B)
+                if nn is not None:
+                    break
+            cond *= nn[0] * nn[1]
+            Bs.append(B)
+        if which == 'fastdiag':
+            KM = [(spd_int(rng, B.shape[0]) + B + B.T, spd_int(rng, B.shape[0])) for B in Bs]
+            terms = [reduce(np.kron, [KM[j][0] if j == d else KM[j][1] for j in range(n)]) for d in range(n)]
+            Am = sum(terms)
+            Dm = np.linalg.inv(Am)
+            return which, solvers.fastdiag_solver(KM), Dm, {'KM': [(a.tolist(), b.tolist()) for a, b in KM]}, \
+                1024.0 * Am.shape[0] * 2.0 ** -53 * float(np.linalg.cond(Am))
+        K = reduce(np.kron, Bs)
+        ks = [str(rng.choice(['d', 'r', 'c'])) for _ in Bs]
+        mats = [mk(k, B) for k, B in zip(ks, Bs)]
+        A = operators.make_solver(mats[0]) if which == 'solver' else operators.make_kronecker_solver(*mats)
+        return which, A, np.linalg.inv(K), {'Bs': [B.tolist() for B in Bs], 'kinds': ks}, 256.0 * K.shape[0] * 2.0 ** -53 * cond
+
+    for _ in range(500 if quick else 5000):
+        try:
+            which, A, D, desc, rel = build()
+        except Exception as ex:
+            ctx.violation('history-build', 'operator construction raised %s: %s' % (type(ex).__name__, str(ex)[:120]), {}, True)
+            continue
+        word = str(rng.choice(['N', 'N', 'T'])) if which not in ('solver', 'ksolver', 'fastdiag') else 'N'
+        if word == 'T':
+            A = A.T; D = D.T
+        kind = int(rng.integers(0, 3))
+        x1 = rand_x(rng, D.shape[1], kind); x2 = rand_x(rng, D.shape[1], kind)
+        if x2.shape != x1.shape:
+            x2 = rint(rng, x1.shape)
+        ctx.case(('history', which, word, D.tobytes(), x1.tobytes(), x2.tobytes())); ctx.count('stream=history'); ctx.count('history class=' + which)
+        replay = dict(desc, operator=which, word=word, x1=x1.tolist(), x2=x2.tolist())
+
+        def close(y, want):
+            y = np.asarray(y)
+            t = rel * max(1.0, float(np.abs(want).max())) * max(1.0, float(np.abs(D).sum(1).max()))
+            return y.shape == want.shape and bool(np.all(np.abs(y - want) <= t))
+        try:
+            x1c, x2c = x1.copy(), x2.copy()
+            y1 = A.dot(x1)
+            y1c = np.array(y1, copy=True)
+            y2 = A.dot(x2)
+            bad = None
+            if not close(y1c, D @ x1):
+                bad = 'first application differs from the dense definition'
+            elif not close(y2, D @ x2):
+                bad = 'second application differs from the dense definition'
+            elif not np.array_equal(np.asarray(y1), y1c):
+                bad = 'the result of the first application changed when the operator was applied again (A x1 became %s)' % np.asarray(y1).ravel().tolist()[:8]
+            elif not (np.array_equal(x1, x1c) and np.array_equal(x2, x2c)):
+                bad = 'the operator modified its argument'
+            if bad is None and D.shape[0] == D.shape[1]:
+                xs = x1.copy()
+                z = A.dot(A.dot(xs))
+                want2 = D @ (D @ x1)
+                t2 = rel * 4 * max(1.0, float(np.abs(want2).max())) * max(1.0, float(np.abs(D).sum(1).max())) ** 2
+                if np.asarray(z).shape != want2.shape or not np.all(np.abs(np.asarray(z) - want2) <= t2):
+                    bad = 'A(A x) differs from D(D x): %s vs %s' % (np.asarray(z).ravel().tolist()[:8], want2.ravel().tolist()[:8])
+                else:
+                    w = A.dot(x1)                       # apply the operator to its own output object
+                    w2 = A.dot(w)
+                    if not np.all(np.abs(np.asarray(w2) - want2) <= t2) or not close(w, D @ x1):
+                        bad = 'applying the operator to its own output gives %s, expected %s' % (np.asarray(w2).ravel().tolist()[:8], want2.ravel().tolist()[:8])
+            if bad is not None:
+                nbad += 1
+                ctx.violation('history:' + which, '%s object applied repeatedly: %s' % (which, bad), replay, True)
+                continue
+            if np.shares_memory(np.asarray(y1), np.asarray(y2)):
+                nbad += 1
+                ctx.violation('alias:' + which, '%s: the results of two applications share memory' % which, replay, True)
+            elif which != 'ident' and (np.shares_memory(np.asarray(y1), x1) or np.shares_memory(np.asarray(y2), x2)):
+                nbad += 1
+                ctx.violation('alias:' + which, '%s: the result shares memory with the argument' % which, replay, True)
+        except Exception as ex:
+            nbad += 1
+            ctx.violation('history:' + which, '%s object applied repeatedly raised %s: %s' % (which, type(ex).__name__, str(ex)[:120]), replay, True)
+    ctx.obligation('call histories: results of repeated applications stay intact, equal the dense definition and do not alias', nbad == 0, '%d failures' % nbad)
 
 
 # ----------------------------------------------------------------------------- solver factories
@@ -544,6 +738,21 @@ def solver_streams(ctx, operators, solvers, rng):
             nres_bad += 1
             ctx.violation('ksolve-residual', '%s: residual |B y - x| = %g exceeds the conditioning bound %g' % (what, res, bound),
                           dict(replay, y=np.asarray(y).tolist()), True)
+        elif rng.integers(0, 3) == 0:
+            # the same right-hand side given with an integer / bool / float32 dtype
+            dt = [np.int64, np.int32, np.bool_, np.float32][int(rng.integers(0, 4))]
+            xc = x.astype(dt); xf = xc.astype(np.float64)
+            ctx.count('solver dtype probe=' + np.dtype(dt).name)
+            b2 = bound if dt is not np.float32 else bound + 64.0 * N * float(np.finfo(np.float32).eps) * cond * max(1.0, float(np.abs(xf).max())) * float(np.abs(Kd).sum(1).max())
+            try:
+                yc = np.asarray(op.dot(xc)).astype(np.float64)
+                r2 = np.abs(Kd @ yc - xf).max() if yc.shape == xf.shape else np.inf
+            except Exception as ex:
+                r2 = np.inf; yc = errtok(ex)
+            if not r2 <= b2:
+                nres_bad += 1
+                ctx.violation('dtype:solver', '%s applied to a %s right-hand side: residual %g exceeds the bound %g' % (what, np.dtype(dt).name, r2, b2),
+                              dict(replay, argument_dtype=np.dtype(dt).name, argument=xc.tolist(), y=yc.tolist() if hasattr(yc, 'tolist') else yc), True)
         return y
 
     for _ in range(250 if quick else 2500):
